@@ -366,7 +366,10 @@ def rule_context_in_sentences(ctx, rep, langs=ALL_LANGS):
         w1, w2 = WORDS[lang]
         sp = lambda n: ' '.join(spellings(lang, n)[0])   # noqa: E731
         parts = [sp(1), sp(7), sp(20), sp(21), sp(100), sp(1999), '%s %s' % (sp(2), sp(3)), '%s, %s' % (sp(1), sp(2)), '%s %s %s' % (sp(3), lx['decimal_sep'], sp(5)),
-                 '%s %s' % (w1, sp(2)), '%s %s %s' % (sp(5), w2, sp(6)), w1, '%s %s' % (lx['zero'][0], sp(4))]
+                 '%s %s' % (w1, sp(2)), '%s %s %s' % (sp(5), w2, sp(6)), w1, '%s %s' % (lx['zero'][0], sp(4)),
+                 # fractions made of zeros only (the decimal builder is "null" but not empty), and a separator left dangling
+                 '%s %s %s' % (sp(2), lx['decimal_sep'], lx['zero'][0]), '%s %s %s %s' % (sp(20), lx['decimal_sep'], lx['zero'][0], lx['zero'][0]),
+                 '%s %s' % (sp(12), lx['decimal_sep'])]
         if ordinal_spellings(lang, 2):
             parts += [' '.join(ordinal_spellings(lang, 1)[0]), ' '.join(ordinal_spellings(lang, 21)[0]), '%s %s' % (' '.join(ordinal_spellings(lang, 3)[0]), sp(4))]
         if lang == 'en':
@@ -379,7 +382,7 @@ def rule_context_in_sentences(ctx, rep, langs=ALL_LANGS):
             for i, a in enumerate(parts):
                 items.append((('single', i, th), a, th))
                 for j, b in enumerate(parts):
-                    if (i + j) % (1 if ctx.tier == 'thorough' else 5) == 0:
+                    if (i + j) % (1 if ctx.tier == 'thorough' else 5) == 0 or 13 <= i <= 15:
                         items.append((('both', i, j, th), '%s %s %s' % (a, FILLER[lang], b), th))
         jobs[lang] = items
     res = _memo(ctx, 'sent-context', jobs)
